@@ -67,6 +67,12 @@ def scenarios(draw):
         for h in handlers:
             if h['kind'] == 'delete':
                 h['duration'] = draw(st.sampled_from([0.5, 1.0]))
+    targeted = draw(st.integers(0, 5)) == 0
+    if targeted:
+        # nothing but deletion handlers behind a label filter: an object that stops matching them is nobody's business any more
+        # (no raw-event handler, no daemon, no timer, no other change handler looks at it) - and must be let go all the same
+        handlers = [{'kind': 'delete', 'id': f'd{i}', 'optional': None, 'labels': {'on': 'yes'}, 'script': draw(cl.outcome_scripts(delays, max_len=1)),
+                     'errors': None, 'backoff': 0.5, 'duration': 0} for i in range(draw(st.integers(1, 2)))]
     spec = {'handlers': handlers, 'lifecycle': draw(st.sampled_from(['asap', 'all_at_once'])),
             'settings': {'persistence.consistency_timeout': draw(st.sampled_from([5.0, 1.0])),
                          'background.cancellation_polling': 2.0, 'queueing.idle_timeout': draw(st.sampled_from([5.0, 0.5]))}}
@@ -80,6 +86,9 @@ def scenarios(draw):
         actions.append({'a': 'delete', 'obj': 0, 'dt': draw(dts)})
     if draw(st.booleans()):
         actions.insert(1, {'a': 'label', 'obj': draw(st.integers(0, 1)), 'v': 'yes', 'dt': draw(dts)})
+    if targeted:
+        actions = [{'a': 'create', 'obj': 0, 'v': 1, 'dt': draw(dts)}, {'a': 'label', 'obj': 0, 'v': 'yes', 'dt': draw(st.sampled_from([0.5, 3.0]))},
+                   {'a': 'label', 'obj': 0, 'v': draw(st.sampled_from(['no', None])), 'dt': draw(st.sampled_from([0.5, 3.0, 10.0]))}] + actions[:draw(st.integers(0, 5))]
     cluster = {'status_sub': draw(st.booleans()), 'api_latency': draw(st.sampled_from([None, 0.2, 0.2, 1.0])),
                'rsp_latency': draw(st.sampled_from([None, None, 0.3, 1.0])),
                'watch_latency': draw(st.sampled_from([None, None, 0.1, 0.5])),
